@@ -300,4 +300,89 @@ theorem insert_at (fs : List (α × β)) (i : Int) (k : α) (v : β) :
     (MitmVerif.C35.Gen.insert fs i k v).eraseIdx (pyIndex fs.length i) = fs :=
   take_ins_drop (k, v) fs _ (pyIndex_le _ _)
 
+
+/-- every field after `set_all(k, …)` was there before or is named `k` -/
+theorem mem_setAllLoop (kc : α → γ) (k : α) (fs : List (α × β)) : ∀ (vs : List β) (e : α × β),
+    e ∈ (setAllLoop kc (kc k) fs vs).1 → e ∈ fs ∨ keq kc e.1 k = true := by
+  induction fs with
+  | nil => intro vs e h; simp [setAllLoop] at h
+  | cons f fs ih =>
+    intro vs e h
+    by_cases hf : (kc f.1 == kc k) = true
+    · cases vs with
+      | nil =>
+        simp only [setAllLoop, hf, if_true] at h
+        rcases ih [] e h with h1 | h1
+        · exact Or.inl (List.mem_cons_of_mem _ h1)
+        · exact Or.inr h1
+      | cons v vs' =>
+        simp only [setAllLoop, hf, if_true, List.mem_cons] at h
+        rcases h with h | h
+        · subst h; exact Or.inr hf
+        · rcases ih vs' e h with h1 | h1
+          · exact Or.inl (List.mem_cons_of_mem _ h1)
+          · exact Or.inr h1
+    · have hf' : (kc f.1 == kc k) = false := by simpa using hf
+      simp only [setAllLoop, hf', Bool.false_eq_true, if_false, List.mem_cons] at h
+      rcases h with h | h
+      · subst h; exact Or.inl (by simp)
+      · rcases ih vs e h with h1 | h1
+        · exact Or.inl (List.mem_cons_of_mem _ h1)
+        · exact Or.inr h1
+
+theorem mem_setAll (kc : α → γ) (fs : List (α × β)) (k : α) (vs : List β) (e : α × β)
+    (h : e ∈ setAll kc fs k vs) : e ∈ fs ∨ keq kc e.1 k = true := by
+  simp only [setAll, List.mem_append, List.mem_map] at h
+  rcases h with h | ⟨v, _, hv⟩
+  · exact mem_setAllLoop kc k fs vs e h
+  · subst hv; exact Or.inr (keq_refl kc k)
+
+/-- the key an operation brings in, if any -/
+def MOp.key? : MOp α β → Option α
+  | .setAll k _ | .setItem k _ | .insert _ k _ | .add k _ => some k
+  | _ => none
+
+/-- every field an operation writes was there before or carries (a spelling equivalent to) the operation's key -/
+theorem mem_stepOp (kc : α → γ) (red : List β → β) (fs fs' : List (α × β)) (op : MOp α β)
+    (h : (stepOp kc red fs op).1 = some fs') (e : α × β) (he : e ∈ fs') :
+    e ∈ fs ∨ ∃ k, MOp.key? op = some k ∧ keq kc e.1 k = true := by
+  cases op with
+  | getAll k => simp [stepOp] at h
+  | getItem k => simp [stepOp] at h
+  | iter => simp [stepOp] at h
+  | len => simp [stepOp] at h
+  | setAll k vs =>
+    simp only [stepOp, Option.some.injEq] at h; subst h
+    rcases mem_setAll kc fs k vs e he with h1 | h1
+    · exact Or.inl h1
+    · exact Or.inr ⟨k, rfl, h1⟩
+  | setItem k v =>
+    simp only [stepOp, setItem, Option.some.injEq] at h; subst h
+    rcases mem_setAll kc fs k [v] e he with h1 | h1
+    · exact Or.inl h1
+    · exact Or.inr ⟨k, rfl, h1⟩
+  | delItem k =>
+    simp only [stepOp] at h
+    cases hd : delItem kc red fs k with
+    | none => simp [hd] at h
+    | some r =>
+      simp only [hd, Option.some.injEq] at h; subst h
+      have := ((del_removes_all_only kc red fs k).2 r hd).1
+      subst this
+      exact Or.inl (List.mem_filter.mp he).1
+  | insert i k v =>
+    simp only [stepOp, MitmVerif.C35.Gen.insert, Option.some.injEq] at h; subst h
+    simp only [List.mem_append, List.mem_cons] at he
+    rcases he with h1 | h1 | h1
+    · exact Or.inl (List.mem_of_mem_take h1)
+    · subst h1; exact Or.inr ⟨k, rfl, keq_refl kc k⟩
+    · exact Or.inl (List.mem_of_mem_drop h1)
+  | add k v =>
+    simp only [stepOp, MitmVerif.C35.Gen.add, MitmVerif.C35.Gen.insert, Option.some.injEq] at h; subst h
+    simp only [List.mem_append, List.mem_cons] at he
+    rcases he with h1 | h1 | h1
+    · exact Or.inl (List.mem_of_mem_take h1)
+    · subst h1; exact Or.inr ⟨k, rfl, keq_refl kc k⟩
+    · exact Or.inl (List.mem_of_mem_drop h1)
+
 end MitmVerif.MultiDictGen
